@@ -128,8 +128,9 @@ pub fn rand_pt(rng: &mut Rng) -> LefPoint {
 fn rand_strlit(rng: &mut Rng, cfg: &LefCfg) -> String {
     // a LEF string literal INCLUDING its quotes (the data model keeps them); no inner double quote
     // now and then a very long one (beyond any customary line width) with runs of blanks inside
+    // ... and very rarely one single literal of more than 64 KiB (a token longer than a 16-bit length can say)
     let long = rng.chance(1, 60) && long_ok();
-    let n = if long { 1500 + rng.usize(4000) } else { rng.usize(12) };
+    let n = if long { if rng.chance(1, 12) { 66_000 + rng.usize(40_000) } else { 1500 + rng.usize(4000) } } else { rng.usize(12) };
     let mut s = String::from("\"");
     for _ in 0..n {
         let c = if cfg.hostile_strings && rng.chance(1, 3) {
@@ -167,7 +168,9 @@ fn rand_shape(rng: &mut Rng) -> LefShape {
         0 => LefShape::Rect(rand_mask(rng), rand_pt(rng), rand_pt(rng)),
         1 => {
             // mostly small; now and then hundreds of vertices (a statement of several thousand characters)
-            let n = if rng.chance(1, 80) && long_ok() { 150 + rng.usize(300) } else { 3 + rng.usize(5) };
+            // (a third of the long ones run to over a thousand vertices: one statement of 10..25 KB)
+            let span = if rng.chance(1, 3) { 1500 } else { 300 };
+            let n = if rng.chance(1, 80) && long_ok() { 150 + rng.usize(span) } else { 3 + rng.usize(5) };
             LefShape::Polygon(rand_mask(rng), (0..n).map(|_| rand_pt(rng)).collect())
         }
         _ => {
@@ -358,7 +361,9 @@ fn rand_propdef(rng: &mut Rng, cfg: &LefCfg) -> LefPropertyDefinition {
 
 /// Tokens of an extension body, and the data string the reader is specified to keep (token texts, each followed by one space)
 pub fn rand_extension(rng: &mut Rng) -> (LefExtension, Vec<String>) {
-    let n = if rng.chance(1, 30) && long_ok() { 300 + rng.usize(500) } else { rng.usize(6) };
+    // mostly a few words; now and then thousands (a block of 2..20 KB: longer than an 8 KiB I/O buffer)
+    let span = if rng.bool() { 500 } else { 3000 };
+    let n = if rng.chance(1, 30) && long_ok() { 300 + rng.usize(span) } else { rng.usize(6) };
     let mut toks = Vec::new();
     for _ in 0..n {
         toks.push(match rng.below(5) {
